@@ -4,7 +4,7 @@ Open Scope Z_scope.
 
 (* ---------------------------------------------------------------- extended delta / length fields *)
 Lemma write_read_ext : forall v nib ext rest, write_extended_field_value v = Ok (nib, ext) ->
-  read_extended_field_value nib (ext ++ rest) = Ok (v, rest) /\ 0 <= nib < 15 /\ bytes_ok ext = true /\ 0 <= v < 65804.
+  read_extended_field_value nib (ext ++ rest) = Ok (v, rest) /\ 0 <= nib < 15 /\ bytes_ok ext = true /\ 0 <= v < 65805.
 Proof.
   intros v nib ext rest H. unfold write_extended_field_value, to_bytes_big in H.
   change (2 ^ (8 * 1)) with 256 in H. change (2 ^ (8 * 2)) with 65536 in H.
@@ -19,7 +19,7 @@ Proof.
     unfold bfrom. change (Z.to_nat 1) with 1%nat. cbn [skipn].
     replace ((v - 13) mod 256 + 13) with v by lia. repeat split; try lia.
     cbn. unfold byte_ok. lia. }
-  destruct ((v >=? 269) && (v <? 65804)) eqn:H3; [|discriminate].
+  destruct ((v >=? 269) && (v <? 65805)) eqn:H3; [|discriminate].
   replace ((v - 269 <? 0) || (65536 <=? v - 269)) with false in H by lia. cbn [bind] in H.
   change (Z.to_nat 2) with 2%nat in H. rewrite tb2 in H. inv H.
   unfold read_extended_field_value. cbn [app]. change ((14 >=? 0) && (14 <? 13)) with false. cbv iota.
